@@ -84,7 +84,7 @@ def dump (c : Cat) : String :=
 def encCSN (x : CSN) : String :=
   let ks := sortStrs (x.chks.map encChk)
   let kk := if ks.isEmpty then "-" else "|".intercalate ks
-  s!"{encS x.node.name};{encS x.node.id};{encS x.node.addr};{encS x.svc.node};{encS x.svc.sid};{encS x.svc.name};{x.svc.port};{kk}"
+  s!"{encS x.node.name};{encS x.node.id};{encS x.node.addr};{encS x.svc.sid};{encS x.svc.name};{x.svc.port};{kk}"
 
 def step (c : Cat) (toks : List String) : Cat × String :=
   match toks with
